@@ -229,6 +229,21 @@ func (p *Program) scratchReason(n *types.Named, s string, depth int) (string, bo
 
 // lazyInit: every store of receiver field `field` performed by the operations of type n is dominated by field == nil.
 func (p *Program) lazyInitOnly(n *types.Named, field string, reset *ssa.Function) bool {
+	// only a field that holds an object (pointer or interface) can be "created on first use and kept"
+	if st, ok := n.Underlying().(*types.Struct); ok {
+		okT := false
+		for i := 0; i < st.NumFields(); i++ {
+			if st.Field(i).Name() == field {
+				switch types.Unalias(st.Field(i).Type()).Underlying().(type) {
+				case *types.Pointer, *types.Interface:
+					okT = true
+				}
+			}
+		}
+		if !okT {
+			return false
+		}
+	}
 	found := false
 	for _, fn := range p.Funcs() {
 		if fn == reset || fn.Signature.Recv() == nil || derefNamed(fn.Signature.Recv().Type()) != n {
